@@ -355,6 +355,14 @@ def run_layout(R, tonic):
             R.check(okd, 'C01.R6', '%s:decrement' % nm, site(b), 'self.len -= n present (%d writes to len)' % len(dec))
             dl = [(bb, t) for bb, t in b.calls(name=inner) if mentions_field(b.origin(t['args'][0]), 'buf')]
             R.check(len(dl) == 1 and show(b.origin(dl[0][1]['args'][1])).startswith('arg2'), 'C01.R6', '%s:delegates-same-n' % nm, site(b), 'inner %s(%s)' % (inner, show(b.origin(dl[0][1]['args'][1])) if dl else None))
+            # .. on every path that returns: a branch that hands out bytes (or just returns) without moving the underlying buffer leaves
+            # the wrapper and the receive buffer disagreeing about the position - the rest of the message and the next prefix are then
+            # read from the wrong offset
+            if len(dl) == 1:
+                R.check(all(b.dominates(dl[0][0], rb) for rb in b.return_blocks()), 'C01.R6', '%s:delegates-on-every-path' % nm, site(b, dl[0][0]),
+                        'the inner %s(n) is passed on every returning path (a return that skips it consumes n from the view but not from the buffer)' % inner)
+                okdd = any(b.dominates(bb, rb) for bb, i, st in dec for rb in b.return_blocks()) and all(any(b.dominates(bb, rb) for bb, i, st in dec) for rb in b.return_blocks())
+                R.check(okdd, 'C01.R6', '%s:decrement-on-every-path' % nm, site(b), 'self.len -= n is passed on every returning path')
         n = 0
         for bd in tonic.find(re.compile(r'<codec::buffer::EncodeBuf<.*> as bytes::BufMut>::\w+$')):
             nm = bd.path.rsplit('::', 1)[1]
